@@ -1635,3 +1635,237 @@ Proof.
       pose proof (firsts_distinct _ N1 ND FG) as FD.
       eapply Permutation_NoDup; [|exact FD]. apply Permutation_map. symmetry. apply gsort_perm.
 Qed.
+
+(* ================================================================ the model's tables pass the other checkers too *)
+
+Lemma singlesb_app g1 : forall n1 x1 r1 s1 g2 n2 x2 r2 s2,
+  singlesb g1 n1 x1 r1 s1 = true -> singlesb g2 n2 x2 r2 s2 = true ->
+  singlesb (g1 ++ g2) (n1 ++ n2) (x1 ++ x2) (r1 ++ r2) (s1 ++ s2) = true.
+Proof.
+  induction g1 as [|g g1 IH]; intros n1 x1 r1 s1 g2 n2 x2 r2 s2 H1 H2.
+  - destruct n1, x1, r1, s1; try discriminate. exact H2.
+  - destruct n1 as [|n n1], x1 as [|x x1], r1 as [|r r1], s1 as [|s s1]; try discriminate.
+    cbn [singlesb app] in *. rewrite !andb_true_iff in *. destruct H1 as [[A B] C]. repeat split; auto.
+Qed.
+
+Lemma singlesb_maps (l : list Z) (fg : Z -> geo) (fn : Z -> string) (fx fr fs : Z -> Z) :
+  (forall i, In i l -> fn i = chan_name (fx i) /\ rc_matches (fr i) (fg i) = true) ->
+  singlesb (map fg l) (map fn l) (map fx l) (map fr l) (map fs l) = true.
+Proof.
+  induction l as [|i l IH]; intro H; [reflexivity|]. cbn [map singlesb].
+  destruct (H i (or_introl eq_refl)) as [H1 H2]. rewrite H1, String.eqb_refl, H2. cbn [andb].
+  apply IH. intros j Hj. apply H. now right.
+Qed.
+
+Lemma rc_matches_mk row col rows cols :
+  0 <= row < 65536 -> 0 <= col < 65536 -> 0 <= rows < 65536 -> 0 <= cols < 65536 ->
+  rc_matches (rc_code row col rows cols) (mkG row col rows cols) = true.
+Proof. intros. apply rc_matches_true. cbn [g_row g_col g_rows g_cols]. now apply rc_decode. Qed.
+
+(* ---- Roach *)
+Lemma roach_model_passes_checker n : 0 <= n < 65536 -> check_roach n (roach_prepare n) = true.
+Proof.
+  intro Hn. unfold check_roach. destruct (roach_tables n) as (R1 & R2 & R3 & R4).
+  destruct (simple_tables_identity n) as (S1 & S2 & S3 & S4).
+  rewrite !andb_true_iff. repeat split.
+  - unfold roach_prepare. cbn [tables_of t_names t_nums t_rc t_sub]. rewrite !map_map. cbn [e_name e_num e_rc e_sub].
+    apply (singlesb_maps (zrange 0 n) (fun i => mkG i 0 n 1) chan_name (fun i => i) (fun row => rc_code row 0 n 1) (fun _ => 0)).
+    intros i Hi. apply zrange_In in Hi. split; [reflexivity|]. apply rc_matches_mk; lia.
+  - rewrite R1. now apply znodupb_NoDup.
+  - rewrite R1, R3. now apply groups_coverb_complete.
+Qed.
+
+(* ---- Triangle / SimPulse (default PrepareChannels on top of the codes left by Sample) *)
+Lemma sim_model_passes_checker n sd : 1 <= n < 65536 -> check_sim n (default_prepare n (sim_rc n) sd) = true.
+Proof.
+  intro Hn. unfold check_sim, default_prepare, sim_rc. cbn [t_names t_nums t_rc t_sub t_groups t_cpp].
+  destruct (simple_tables_identity n) as (S1 & S2 & S3 & S4).
+  rewrite !andb_true_iff. repeat split.
+  - pose proof (singlesb_maps (zrange 0 n) (fun i => mkG 0 i 1 n) chan_name (fun i => i) (fun i => rc_code 0 i 1 n) (fun _ => 0)) as X.
+    rewrite map_id in X. apply X.
+    intros i Hi. apply zrange_In in Hi. split; [reflexivity|]. apply rc_matches_mk; lia.
+  - rewrite zrange_length. lia.
+  - now apply znodupb_NoDup.
+  - now apply groups_coverb_complete.
+Qed.
+
+(* ---- Erroring source *)
+Lemma singles_norcb_maps (l : list Z) (fs : Z -> Z) :
+  singles_norcb (map chan_name l) l (map fs l) = true.
+Proof. induction l as [|i l IH]; [reflexivity|]. cbn [map singles_norcb]. now rewrite String.eqb_refl. Qed.
+
+Lemma erroring_model_passes_checker n : 0 <= n -> check_erroring n (erroring_prepare n) = true.
+Proof.
+  intro Hn. unfold check_erroring, erroring_prepare, default_prepare. cbn [t_names t_nums t_rc t_sub t_groups t_cpp].
+  destruct (simple_tables_identity n) as (S1 & S2 & S3 & S4).
+  rewrite !andb_true_iff. repeat split.
+  - apply singles_norcb_maps.
+  - rewrite zrange_length. lia.
+  - now apply znodupb_NoDup.
+  - now apply groups_coverb_complete.
+Qed.
+
+(* ---- Abaco *)
+Lemma gsorted_strict l : gsorted l -> NoDup (map fst l) -> firsts_increasingb l = true.
+Proof.
+  induction l as [|g [|h r] IH]; intros S N; try reflexivity.
+  cbn [gsorted] in S. destruct S as [S1 S2]. cbn [firsts_increasingb].
+  cbn [map] in N. inversion N as [|? ? Ng N']; subst.
+  rewrite andb_true_iff. split; [|apply IH; auto].
+  assert (fst g <> fst h) by (intro E; apply Ng; rewrite E; now left). lia.
+Qed.
+
+Lemma abaco_nums_gnums gs : abaco_nums gs = gnums gs.
+Proof. induction gs as [|g r IH]; [reflexivity|]. cbn [abaco_nums gnums flat_map]. now rewrite IH. Qed.
+
+Lemma abaco_cols_singles gs : forall col ncol,
+  0 <= col -> col + zlen gs <= ncol -> ncol < 65536 -> Forall (fun g => 0 <= snd g < 65536) gs ->
+  let es := abaco_cols gs col ncol in
+  singlesb (abaco_geos gs col ncol) (map e_name es) (map e_num es) (map e_rc es) (map e_sub es) = true.
+Proof.
+  induction gs as [|g r IH]; intros col ncol Hc Hl Hn F; [reflexivity|].
+  inversion F as [|? ? Fg Fr]; subst. rewrite zlen_cons in Hl. pose proof (zlen_nonneg r).
+  cbv zeta. cbn [abaco_cols abaco_geos]. rewrite !map_app. apply singlesb_app.
+  - unfold abaco_rows. rewrite !map_map. cbn [e_name e_num e_rc e_sub].
+    apply (singlesb_maps (zrange 0 (snd g)) (fun row => mkG row col (snd g) ncol)
+             (fun row => chan_name (row + fst g)) (fun row => row + fst g)
+             (fun row => rc_code row col (snd g) ncol) (fun _ => 0)).
+    intros i Hi. apply zrange_In in Hi. split; [reflexivity|]. apply rc_matches_mk; lia.
+  - apply IH; auto; lia.
+Qed.
+
+Lemma abaco_model_passes_checker pk sorted nchan :
+  Forall (fun p => 1 <= fst p < 65536) pk -> abaco_sample pk = Some (sorted, nchan) -> zlen sorted < 65536 ->
+  check_abaco pk (abaco_prepare sorted) = true.
+Proof.
+  intros F H L. destruct (abaco_identity _ _ _ H) as (P & S & G & N & ND & NM & NDn & PD & CV). cbv zeta in *.
+  destruct (group_keys_spec pk [] (NoDup_nil _)) as [N1 S1].
+  assert (MEM : forall g, In g sorted <-> In g (announced pk)).
+  { intro g. split; intro Hg.
+    - assert (In g (group_keys pk [])) by (eapply Permutation_in; eauto). apply S1 in H0 as [[]|]; auto.
+    - eapply Permutation_in; [apply Permutation_sym; exact P|]. apply S1. now right. }
+  assert (FG : Forall (fun g => 1 <= snd g < 65536) sorted).
+  { apply Forall_forall. intros g Hg. apply MEM in Hg. unfold announced in Hg.
+    apply in_map_iff in Hg as [p [<- Hp]]. rewrite Forall_forall in F. exact (F p Hp). }
+  unfold check_abaco. rewrite G. rewrite !andb_true_iff. repeat split.
+  - apply forallb_forall. intros g Hg. apply gmem_In. now apply MEM.
+  - apply forallb_forall. intros g Hg. apply gmem_In. now apply MEM.
+  - apply gsorted_strict; [exact S|].
+    assert (NDs : NoDup sorted) by (eapply Permutation_NoDup; [apply Permutation_sym; exact P | exact N1]).
+    apply firsts_distinct; auto.
+    + rewrite <- N. exact ND.
+    + eapply Forall_impl; [|exact FG]. cbv beta. intros; lia.
+  - unfold abaco_prepare. cbn [tables_of t_names t_nums t_rc t_sub].
+    apply abaco_cols_singles; [lia | rewrite Z.add_0_l; apply Z.le_refl | exact L |].
+    eapply Forall_impl; [|exact FG]. cbv beta. intros; lia.
+  - apply zlist_eqb_eq. rewrite abaco_nums_gnums. exact N.
+  - now apply znodupb_NoDup.
+  - apply groups_coverb_complete; [|exact PD]. rewrite G in CV. exact CV.
+Qed.
+
+(* ---- files *)
+Lemma ident_eqb_refl a : ident_eqb a a = true.
+Proof. unfold ident_eqb. now rewrite !Z.eqb_refl, !String.eqb_refl. Qed.
+
+Lemma NoDup_map_in {A B} (f : A -> B) l :
+  NoDup l -> (forall x y, In x l -> In y l -> f x = f y -> x = y) -> NoDup (map f l).
+Proof.
+  induction l as [|a l IH]; intros ND H; [constructor|]. inversion ND as [|? ? Na ND']; subst.
+  cbn [map]. constructor.
+  - intro K. apply in_map_iff in K as [y [E Hy]]. assert (y = a) by (apply H; [now right | now left | exact E]). subst. auto.
+  - apply IH; auto. intros x y Hx Hy. apply H; now right.
+Qed.
+
+Definition fname (base today : string) (i : Z) (names : list string) (ext : string) (k : Z) : string :=
+  String.append (file_prefix base today i) (String.append (znth_s names k) (String "." ext)).
+
+Lemma fname_nonempty base today i names ext k : nonempty (fname base today i names ext k) = true.
+Proof.
+  unfold fname, nonempty. destruct (String.append _ _) eqn:E; [|reflexivity].
+  exfalso. apply (f_equal String.length) in E. revert E.
+  generalize (file_prefix base today i). intro p.
+  assert (L : forall a b, String.length (String.append a b) = (String.length a + String.length b)%nat).
+  { induction a; cbn; intros; [reflexivity | now rewrite IHa]. }
+  rewrite !L. cbn. lia.
+Qed.
+
+Lemma fname_inj base today i names e1 e2 k1 k2 :
+  no_percent base -> no_percent today -> NoDup names -> In e1 exts -> In e2 exts ->
+  0 <= k1 < zlen names -> 0 <= k2 < zlen names ->
+  fname base today i names e1 k1 = fname base today i names e2 k2 -> k1 = k2 /\ e1 = e2.
+Proof.
+  intros Hb Ht ND E1 E2 K1 K2 H.
+  pose proof (filename_value base today i (znth_s names k1) e1 Hb Ht) as F1.
+  pose proof (filename_value base today i (znth_s names k2) e2 Hb Ht) as F2.
+  fold (fname base today i names e1 k1) in F1. fold (fname base today i names e2 k2) in F2. rewrite <- H in F2.
+  destruct (filenames_injective_lemma _ _ _ _ _ _ _ _ Hb Ht E1 E2 F1 F2) as [En Ee]. split; [|exact Ee].
+  unfold znth_s in En. eapply NoDup_znth_inj_gen; eauto.
+Qed.
+
+Lemma off_names_map (F : Z -> chanfile) offs l :
+  (forall k, f_offhd (F k) = if has_off offs k then Some (f_hd (F k)) else None) ->
+  off_names (map F l) = map (fun k => f_off (F k)) (filter (has_off offs) l).
+Proof.
+  intro H. induction l as [|k l IH]; [reflexivity|]. cbn [map off_names flat_map filter]. fold (off_names (map F l)).
+  rewrite H, IH. destruct (has_off offs k); reflexivity.
+Qed.
+
+Lemma files_identb_model t src offs (F : Z -> chanfile) :
+  (forall k, f_dspname (F k) = i_chname (status_ident t src k) /\ f_dspnum (F k) = i_chnum (status_ident t src k) /\
+             f_hd (F k) = status_ident t src k /\
+             f_offhd (F k) = if has_off offs k then Some (status_ident t src k) else None) ->
+  forall n a, files_identb t src offs a (map F (zrange_nat a n)) = true.
+Proof.
+  intros H n. induction n as [|n IH]; intro a; [reflexivity|]. cbn [zrange_nat map files_identb].
+  destruct (H a) as (H1 & H2 & H3 & H4). rewrite H1, H2, H3, H4, String.eqb_refl, Z.eqb_refl, ident_eqb_refl, IH.
+  destruct (has_off offs a); [now rewrite ident_eqb_refl | reflexivity].
+Qed.
+
+Lemma files_model_passes_checker t src base today i offs cf :
+  no_percent base -> no_percent today -> NoDup (t_names t) ->
+  files_of t src (make_directory base today i) offs = Ok cf ->
+  check_files t src offs cf (zlen cf * 2 + zlen (filter (has_off offs) (zrange 0 (zlen cf))) + 1) = true.
+Proof.
+  intros Hb Ht ND H. unfold files_of in H.
+  set (n := zlen (t_names t)) in *.
+  destruct ((zlen (t_rc t) <? n) || (zlen (t_sub t) <? n) || (zlen (t_nums t) <? n)); [discriminate|].
+  injection H as H. pose proof (zlen_nonneg (t_names t)) as Hn. fold n in Hn.
+  set (F := fun k : Z => _) in H. subst cf.
+  assert (Fl : forall e k, ostr (filename (make_directory base today i) (znth_s (t_names t) k) e) = fname base today i (t_names t) e k).
+  { intros e k. rewrite filename_value by assumption. reflexivity. }
+  assert (LEN : zlen (map F (zrange 0 n)) = n) by (rewrite zlen_map, zrange_length; lia).
+  assert (OFFH : forall k, f_offhd (F k) = if has_off offs k then Some (f_hd (F k)) else None).
+  { intro k. subst F. cbn [f_offhd f_hd]. reflexivity. }
+  assert (M1 : map f_ljh (map F (zrange 0 n)) = map (fname base today i (t_names t) "ljh") (zrange 0 n)).
+  { rewrite map_map. apply map_ext. intro k. subst F. cbn [f_ljh]. apply Fl. }
+  assert (M2 : map f_ljh3 (map F (zrange 0 n)) = map (fname base today i (t_names t) "ljh3") (zrange 0 n)).
+  { rewrite map_map. apply map_ext. intro k. subst F. cbn [f_ljh3]. apply Fl. }
+  assert (M3 : off_names (map F (zrange 0 n)) = map (fname base today i (t_names t) "off") (filter (has_off offs) (zrange 0 n))).
+  { rewrite (off_names_map F offs _ OFFH). apply map_ext_in. intros k Hk. apply filter_In in Hk as [_ Hk].
+    subst F. cbn [f_off]. rewrite Hk. apply Fl. }
+  assert (EX : In "ljh"%string exts /\ In "ljh3"%string exts /\ In "off"%string exts) by (cbn; tauto).
+  destruct EX as (X1 & X2 & X3).
+  assert (INJ : forall e l, In e exts -> NoDup l -> (forall k, In k l -> 0 <= k < n) -> NoDup (map (fname base today i (t_names t) e) l)).
+  { intros e l He NDl R. apply NoDup_map_in; [exact NDl|]. intros x y Hx Hy E.
+    exact (proj1 (fname_inj _ _ _ _ _ _ _ _ Hb Ht ND He He (R x Hx) (R y Hy) E)). }
+  assert (RZ : forall k, In k (zrange 0 n) -> 0 <= k < n) by (intros k Hk; apply zrange_In in Hk; lia).
+  assert (RF : forall k, In k (filter (has_off offs) (zrange 0 n)) -> 0 <= k < n).
+  { intros k Hk. apply filter_In in Hk as [Hk _]. auto. }
+  assert (NDF : NoDup (filter (has_off offs) (zrange 0 n))) by (apply NoDup_filter, zrange_NoDup).
+  unfold check_files. rewrite LEN, M1, M2, M3. rewrite !andb_true_iff. repeat split.
+  - apply Z.eqb_refl.
+  - unfold zrange. apply files_identb_model. intro k. subst F. cbn [f_dspname f_dspnum f_hd f_offhd].
+    unfold status_ident. cbn [i_chname i_chnum]. fold n. repeat split.
+  - rewrite !forallb_app. rewrite !andb_true_iff. repeat split; apply forallb_forall; intros x Hx;
+      apply in_map_iff in Hx as [k [<- _]]; apply fname_nonempty.
+  - assert (I1 := INJ _ _ X1 (zrange_NoDup 0 n) RZ). assert (I2 := INJ _ _ X2 (zrange_NoDup 0 n) RZ).
+    assert (I3 := INJ _ _ X3 NDF RF).
+    apply snodupb_NoDup. apply NoDup_app_intro; [exact I1 | apply NoDup_app_intro; [exact I2 | exact I3 |] |].
+    + intros x H1 H2. apply in_map_iff in H1 as [k1 [<- K1]]. apply in_map_iff in H2 as [k2 [E K2]].
+      destruct (fname_inj _ _ _ _ _ _ _ _ Hb Ht ND X3 X2 (RF _ K2) (RZ _ K1) E) as [_ Ee]. discriminate.
+    + intros x H1 H2. apply in_map_iff in H1 as [k1 [<- K1]]. apply in_app_iff in H2 as [H2|H2];
+        apply in_map_iff in H2 as [k2 [E K2]].
+      * destruct (fname_inj _ _ _ _ _ _ _ _ Hb Ht ND X2 X1 (RZ _ K2) (RZ _ K1) E) as [_ Ee]. discriminate.
+      * destruct (fname_inj _ _ _ _ _ _ _ _ Hb Ht ND X3 X1 (RF _ K2) (RZ _ K1) E) as [_ Ee]. discriminate.
+  - rewrite !zlen_app, !zlen_map, zrange_length. apply Z.eqb_eq. lia.
+Qed.
